@@ -239,6 +239,46 @@ def add_keytype_override(rng, sd):
     return bname, dname
 
 
+def add_checked_section(rng, sd):
+    """extends (in place) a schema description by a section type whose DATATYPE checks the section as a whole
+    (zcvdt.sectmarker: rejects, with ValueError, a section one of whose own text attributes holds the marker '!sbad') and by a
+    holder type in which it is nested - as the occupant of a single slot ('*', '+', no name, a fixed name) or as a member of a
+    multisection - plus, sometimes, an outer holder around the holder; a multisection slot for the outermost holder is added
+    at top level.  Such a section converts line by line and is rejected only when the section that encloses it is closed.
+    Returns the names of the checked type and of the holder."""
+    i = len(sd.types)
+    cname, hname = "chk%d" % i, "hold%d" % i
+    kt = rng.choice([None, None, "identifier", "ipaddr-or-hostname"])
+    ch = [F.KeyD("note", rng.choice(["string", "null", "zcvdt.marker"]), False, rng.random() < 0.3, None, "chk%dnote" % i, None)]
+    if ch[0].dt != "null" and not ch[0].required and rng.random() < 0.5:
+        ch[0].default = rng.choice(["fine", "n"])
+    if rng.random() < 0.6:
+        ch.append(F.KeyD("low", "integer", False, False, rng.choice([None, "0"]), "chk%dlow" % i, None))
+    if rng.random() < 0.3:
+        ch.append(F.KeyD("tags", "string", True, False, None, "chk%dtags" % i, None))
+    rng.shuffle(ch)
+    sd.types.append(F.TypeD(cname, ch, kt, "zcvdt.sectmarker"))
+    multi = rng.random() < 0.5
+    nm = rng.choice(["*", "+"]) if multi else rng.choice(["*", "+", None, "fixedchk"])
+    hch = [F.SectD(cname, nm, multi, rng.random() < 0.3, "hold%dchk" % i, None)]
+    if rng.random() < 0.6:
+        hch.append(F.KeyD("title", "string", False, False, None, "hold%dtitle" % i, None))
+    if rng.random() < 0.3:
+        hch.append(F.KeyD("level", "integer", False, rng.random() < 0.5, None, "hold%dlevel" % i, None))
+    rng.shuffle(hch)
+    sd.types.append(F.TypeD(hname, hch, None, rng.choice([None, None, "zcvdt.wrap"])))
+    outer = hname
+    if rng.random() < 0.4:
+        outer = "outer%d" % i
+        och = [F.SectD(hname, rng.choice(["*", "+"]), True, False, "outer%dholds" % i, None)]
+        if rng.random() < 0.5:
+            och.append(F.KeyD("title", "string", False, False, None, "outer%dtitle" % i, None))
+        rng.shuffle(och)
+        sd.types.append(F.TypeD(outer, och, None, None))
+    sd.children.append(F.SectD(outer, "*", True, False, "holders%d" % i, None))
+    return cname, hname
+
+
 def _pick_default(rng, dt, pbad):
     """schema defaults: never empty or blank (an empty <default/> element has no position in the real loader and
     fails with TypeError when it does not convert - a schema authoring error outside every property's quantifier)"""
